@@ -61,7 +61,21 @@ RECLOOP = [
                    fields=[("timestamp", "Int"), ("qos", "Int"), ("state", "Int"), ("dup", "Bool")]),
          calls={"_check_clean_session": ("checkCleanSession", ["_protocol", "_clean_start", "_mqttv5_first_connect", "_clean_session"], "Bool")}),
 ]
-EXC = {"ValueError": ".valueError", "TypeError": ".typeError", "AssertionError": ".assertionError", "IndexError": ".indexError"}
+# callbacks of the one-shot helpers: functions of (userdata, listed parameters) that call methods of the client; the
+# translated function returns the new userdata and the calls made on the client, in order (Paho.Py.HEff)
+CALLBACKS = [
+    dict(file="FnHelpers", src="subscribe.py", qual="_on_message_simple", name="onMessageSimple", state="SimpleUD",
+         dict_fields={"msg_count": "Int", "retained": "Bool", "messages": "PyMsgs"}, params=[("message", "PyInMsg")],
+         obj_fields={"message": {"retain": "Bool"}}),
+    dict(file="FnHelpers", src="subscribe.py", qual="_on_connect", name="subOnConnect", state="SubUD",
+         dict_fields={"topics": "PyTopics", "qos": "Int"}, params=[("reason_code", "Int")]),
+    dict(file="FnHelpers", src="publish.py", qual="_do_publish", name="doPublish", state="List PyPubMsg", params=[]),
+    dict(file="FnHelpers", src="publish.py", qual="_on_connect", name="pubOnConnect", state="List PyPubMsg",
+         params=[("reason_code", "Int")], calls={"_do_publish": "doPublish"}),
+    dict(file="FnHelpers", src="publish.py", qual="_on_publish", name="pubOnPublish", state="List PyPubMsg", params=[],
+         calls={"_do_publish": "doPublish"}),
+]
+EXC = {"ValueError": ".valueError", "TypeError": ".typeError", "AssertionError": ".assertionError", "IndexError": ".indexError", "MQTTException": ".mqttException"}
 RESERVED = {"bytes": "bytes_", "end": "end_", "from": "from_", "at": "at_", "open": "open_"}
 
 
@@ -343,7 +357,8 @@ class Tr:
                     out.append(f"{pad}else")
                     out += self.stmts(s.orelse, ind + 1, ctl)
             elif isinstance(s, ast.Raise):
-                nm = s.exc.func.id if isinstance(s.exc, ast.Call) and isinstance(s.exc.func, ast.Name) else None
+                nm = s.exc.func.id if isinstance(s.exc, ast.Call) and isinstance(s.exc.func, ast.Name) else \
+                    s.exc.func.attr if isinstance(s.exc, ast.Call) and isinstance(s.exc.func, ast.Attribute) else None
                 if nm not in EXC:
                     raise Missing(f"raise {ast.dump(s.exc)[:40]}")
                 out.append(f"{pad}throw Exc{EXC[nm]}")
@@ -449,6 +464,157 @@ class Tr:
         return "\n".join(L)
 
 
+class CbTr(Tr):
+    """callbacks of the helpers (see CALLBACKS)"""
+
+    def is_ud(self, e):
+        return (isinstance(e, ast.Name) and e.id == "userdata") or \
+            (isinstance(e, ast.Attribute) and e.attr == "_userdata" and isinstance(e.value, ast.Name) and e.value.id == "client")
+
+    def ud_key(self, e):
+        if isinstance(e, ast.Subscript) and self.is_ud(e.value) and isinstance(e.slice, ast.Constant) and isinstance(e.slice.value, str):
+            k = e.slice.value
+            if k not in self.cfg.get("dict_fields", {}):
+                raise Missing(f"userdata[{k!r}] is not modelled")
+            return k
+        return None
+
+    def client_call(self, e, name):
+        return isinstance(e, ast.Call) and isinstance(e.func, ast.Attribute) and e.func.attr == name \
+            and isinstance(e.func.value, ast.Name) and e.func.value.id == "client"
+
+    def expr(self, e):
+        k = self.ud_key(e)
+        if k is not None:
+            return f"userdata.{k}", self.cfg["dict_fields"][k]
+        if self.is_ud(e):
+            return "userdata", self.cfg["state"]
+        if isinstance(e, ast.Attribute) and isinstance(e.value, ast.Name) and e.value.id in self.cfg.get("obj_fields", {}):
+            f = self.cfg["obj_fields"][e.value.id]
+            if e.attr not in f:
+                raise Missing(f"{e.value.id}.{e.attr} is not modelled")
+            return f"{e.value.id}.{e.attr}", f[e.attr]
+        if isinstance(e, ast.Compare) and len(e.ops) == 1 and isinstance(e.ops[0], (ast.Is, ast.IsNot)) \
+                and isinstance(e.comparators[0], ast.Constant) and e.comparators[0].value is None:
+            v, t = self.expr(e.left)
+            if t != "PyMsgs":
+                raise Missing(f"`is None` on a {t}")
+            return (f"({v}).isNone" if isinstance(e.ops[0], ast.Is) else f"(!({v}).isNone)"), "Bool"
+        if isinstance(e, ast.Call) and isinstance(e.func, ast.Name) and e.func.id == "isinstance" and len(e.args) == 2:
+            v, t = self.expr(e.args[0])
+            cls = e.args[1]
+            names = tuple(x.id for x in cls.elts) if isinstance(cls, ast.Tuple) and all(isinstance(x, ast.Name) for x in cls.elts) \
+                else (cls.id,) if isinstance(cls, ast.Name) else None
+            if t == "PyPubMsg" and names == ("dict",):
+                return f"({v}.form == Py.PyForm.dict)", "Bool"
+            if t == "PyPubMsg" and names is not None and set(names) == {"tuple", "list"}:
+                return f"({v}.form == Py.PyForm.seq)", "Bool"
+            if t == "PyTopics" and names == ("list",):
+                return f"({v}).isList", "Bool"
+            raise Missing(f"isinstance({t}, {names})")
+        if isinstance(e, ast.Call) and isinstance(e.func, ast.Name) and e.func.id == "len" and len(e.args) == 1 and self.is_ud(e.args[0]):
+            if not self.cfg["state"].startswith("List "):
+                raise Missing("len() of a userdata that is not a sequence")
+            return "((userdata).length : Int)", "Int"
+        return super().expr(e)
+
+    def eff(self, pad, text):
+        return f"{pad}effs := effs ++ {text}"
+
+    def stmts(self, body, ind, ctl):
+        out = []
+        pad = "  " * ind
+        for s in body:
+            v = s.value if isinstance(s, ast.Expr) else None
+            if isinstance(s, ast.Return) and s.value is None:
+                out.append(f"{pad}return (userdata, effs)")
+            elif isinstance(s, ast.Return):
+                raise Missing("callback returns a value")
+            elif isinstance(s, ast.Assign) and len(s.targets) == 1 and self.ud_key(s.targets[0]) is not None:
+                k = self.ud_key(s.targets[0])
+                ft = self.cfg["dict_fields"][k]
+                val, t = self.expr(s.value)
+                if ft == "PyMsgs" and t == "PyInMsg":
+                    val, t = f"(Py.PyMsgs.one {val})", "PyMsgs"
+                if t != ft:
+                    raise Missing(f"userdata[{k!r}] assigned a {t}")
+                out.append(f"{pad}userdata := {{ userdata with {k} := {val} }}")
+            elif isinstance(s, ast.Assign) and len(s.targets) == 1 and isinstance(s.targets[0], ast.Name) and isinstance(s.value, ast.Call) \
+                    and isinstance(s.value.func, ast.Attribute) and s.value.func.attr == "popleft" and self.is_ud(s.value.func.value) and not s.value.args:
+                if not self.cfg["state"].startswith("List "):
+                    raise Missing("popleft() on a userdata that is not a deque")
+                n = s.targets[0].id
+                self.types[n] = self.cfg["state"][5:]
+                out.append(f"{pad}let ({lname(n)}, userdata') ← Py.popleft userdata")
+                out.append(f"{pad}userdata := userdata'")
+            elif v is not None and isinstance(v, ast.Call) and isinstance(v.func, ast.Attribute) and v.func.attr == "append" \
+                    and self.ud_key(v.func.value) is not None and len(v.args) == 1:
+                k = self.ud_key(v.func.value)
+                if self.cfg["dict_fields"][k] != "PyMsgs":
+                    raise Missing("append to a userdata entry that is not the message list")
+                a, t = self.expr(v.args[0])
+                if t != "PyInMsg":
+                    raise Missing(f"append of a {t}")
+                out.append(f"{pad}userdata := {{ userdata with {k} := (← Py.PyMsgs.append userdata.{k} {a}) }}")
+            elif v is not None and self.client_call(v, "disconnect") and not v.args and not v.keywords:
+                out.append(self.eff(pad, "[Py.HEff.disconnect]"))
+            elif v is not None and self.client_call(v, "publish") and not v.keywords and len(v.args) == 1 and isinstance(v.args[0], ast.Starred):
+                a, t = self.expr(v.args[0].value)
+                if t != "PyPubMsg":
+                    raise Missing("publish(*x) of a non-message")
+                out.append(self.eff(pad, f"[Py.HEff.publishArgs {a}]"))
+            elif v is not None and self.client_call(v, "publish") and not v.args and len(v.keywords) == 1 and v.keywords[0].arg is None:
+                a, t = self.expr(v.keywords[0].value)
+                if t != "PyPubMsg":
+                    raise Missing("publish(**x) of a non-message")
+                out.append(self.eff(pad, f"[Py.HEff.publishKw {a}]"))
+            elif v is not None and self.client_call(v, "subscribe") and not v.keywords and len(v.args) == 2:
+                a, ta = self.expr(v.args[0])
+                q, tq = self.expr(v.args[1])
+                if ta != "PyTopics" or tq != "Int":
+                    raise Missing(f"subscribe({ta}, {tq})")
+                out.append(self.eff(pad, f"[Py.HEff.subscribe {a} {q}]"))
+            elif isinstance(s, ast.For) and isinstance(s.target, ast.Name) and not s.orelse and len(s.body) == 1 \
+                    and isinstance(s.body[0], ast.Expr) and self.client_call(s.body[0].value, "subscribe") \
+                    and len(s.body[0].value.args) == 2 and not s.body[0].value.keywords \
+                    and isinstance(s.body[0].value.args[0], ast.Name) and s.body[0].value.args[0].id == s.target.id:
+                it, tit = self.expr(s.iter)
+                if tit != "PyTopics":
+                    raise Missing(f"for over a {tit}")
+                q, tq = self.expr(s.body[0].value.args[1])
+                if tq != "Int":
+                    raise Missing("subscribe qos")
+                out.append(self.eff(pad, f"(({it}).items.map (fun {lname(s.target.id)} => Py.HEff.subscribe (Py.PyTopics.single {lname(s.target.id)}) {q}))"))
+            elif v is not None and isinstance(v, ast.Call) and isinstance(v.func, ast.Name) and v.func.id in self.cfg.get("calls", {}) \
+                    and len(v.args) == 1 and isinstance(v.args[0], ast.Name) and v.args[0].id == "client" and not v.keywords:
+                out.append(f"{pad}let (userdata', effs') ← {self.cfg['calls'][v.func.id]} userdata")
+                out.append(f"{pad}userdata := userdata'")
+                out.append(f"{pad}effs := effs ++ effs'")
+            elif isinstance(s, ast.If):
+                out.append(f"{pad}if {self.test(s.test)} then")
+                out += self.stmts(s.body, ind + 1, ctl) or [f"{pad}  pure ()"]
+                if s.orelse:
+                    out.append(f"{pad}else")
+                    out += self.stmts(s.orelse, ind + 1, ctl)
+            elif isinstance(s, (ast.For, ast.While, ast.Return)):
+                raise Missing(f"statement {type(s).__name__} in a callback")
+            else:
+                out += Tr.stmts(self, [s], ind, ctl)
+        return out
+
+    def translate_callback(self):
+        cfg, fn = self.cfg, self.fn
+        params = " ".join([f"(userdata : {cfg['state']})"] + [f"({lname(n)} : {t})" for n, t in cfg["params"]])
+        where = f"{cfg['src']} {cfg['qual']} (line {fn.lineno})"
+        L = [f"/-- {where}: returns the new userdata and the calls made on the client, in order -/",
+             f"def {cfg['name']} {params} : Except Exc ({cfg['state']} × List Py.HEff) := do",
+             "  let mut userdata := userdata",
+             "  let mut effs : List Py.HEff := []"]
+        L += self.stmts(fn.body, 1, None)
+        L.append("  return (userdata, effs)")
+        return "\n".join(L)
+
+
 def translate_recloop(tr):
     """a method whose body is `[with self._x_mutex:] <straight statements>; for m in self.<table>.values(): <body>`"""
     cfg, fn = tr.cfg, tr.fn
@@ -532,14 +698,17 @@ def run(out):
     the proofs that depend on it)"""
     texts = {}
     consts = {}
-    for cfg, straight in [(c, False) for c in FUNCS] + [(c, True) for c in STRAIGHT] + [(c, c.get("straight", False)) for c in RECLOOP]:
+    for cfg, straight in [(c, False) for c in FUNCS] + [(c, True) for c in STRAIGHT] + [(c, c.get("straight", False)) for c in RECLOOP] \
+            + [(c, True) for c in CALLBACKS]:
         f = cfg["file"]
         texts.setdefault(f, [])
         try:
             tree = ast.parse(open(os.path.join(PKG, cfg["src"]), encoding="utf-8").read())
             fn = find_func(tree, cfg["qual"])
-            tr = Tr(cfg, fn, consts.setdefault(f, {}))
-            if "loop" in cfg:
+            tr = (CbTr if "state" in cfg else Tr)(cfg, fn, consts.setdefault(f, {}))
+            if "state" in cfg:
+                texts[f].append(tr.translate_callback())
+            elif "loop" in cfg:
                 texts[f].append(translate_recloop(tr))
             else:
                 texts[f].append(tr.translate_straight() if straight else tr.translate())
@@ -550,7 +719,7 @@ def run(out):
         except (OSError, SyntaxError) as e:
             out.report["missing"].append({"name": "fn:" + cfg["name"], "why": f"cannot parse: {e}", "file": f})
     return {f: ("-- GENERATED by /verif/py/py2lean.py from the working tree of /repo. Do not edit.\n"
-                "import Paho.Model.Py\n"
-                "namespace Paho.Gen.Fn\nopen Paho\n\n"
+                + ("import Paho.Model.PyHelpers\n" if f == "FnHelpers" else "import Paho.Model.Py\n") +
+                "namespace Paho.Gen.Fn\nopen Paho Paho.Py\n\n"
                 + "".join(f"/-- module-level constant `{n}` of the live module -/\ndef c_{n} : Int := {v}\n\n" for n, v in sorted(consts.get(f, {}).items()))
                 + "\n\n".join(t) + "\n\nend Paho.Gen.Fn\n") for f, t in texts.items()}
